@@ -21,6 +21,10 @@ class Unsupported(Exception):
     pass
 
 
+class Restart(Exception):
+    """the edit is outside what one machine op expresses deterministically: the segment ends, a new one starts after it"""
+
+
 class Ids:
     """object identity -> small stable number (keeps the objects alive so that id() is not reused)"""
 
@@ -64,7 +68,7 @@ def snapshot(iso, ids):
     else:
         fixed = 16 + len(iso.pvds) + len(iso.brs) + len(iso.svds) + len(iso.vdsts) + (1 if iso.version_vd is not None else 0) + er
     snap = {'fixed': fixed,
-            'ce': len(iso.pvd.rr_ce_blocks), 'space': iso.pvd.space_size,
+            'ceb': [sorted((e._offset, e._length) for e in b._entries) for b in iso.pvd.rr_ce_blocks], 'space': iso.pvd.space_size,
             'pt0': (iso.pvd.path_tbl_size, iso.pvd.path_table_num_extents),
             'pt1': (iso.joliet_vd.path_tbl_size, iso.joliet_vd.path_table_num_extents) if iso.joliet_vd is not None else (0, 0),
             'dirs': {}, 'inos': {}, 'order': {}, 'udirs': {}, 'ufree': 0}
@@ -104,7 +108,8 @@ def enc_state(s):
     ds = ','.join('%d:%d:%s' % (i, d['dataLen'], '.'.join(str(l) for _, l in d['kids']) or '-') for i, d in sorted(s['dirs'].items())) or '-'
     ins = ','.join('%d:%d:%d:%d' % (i, l, n, nu) for i, (l, n, nu) in sorted(s['inos'].items())) or '-'
     us = ','.join('%d:%d' % (i, u['info']) for i, u in sorted(s['udirs'].items())) or '-'
-    return '%d;%d;%d;%d,%d;%d,%d;%s;%s;%s;%d' % (s['fixed'], s['ce'], s['space'], s['pt0'][0], s['pt0'][1], s['pt1'][0], s['pt1'][1], ds, ins, us, s['ufree'])
+    ceb = ','.join('.'.join('%d:%d' % e for e in b) or 'e' for b in s['ceb']) or '-'
+    return '%d;%s;%d;%d,%d;%d,%d;%s;%s;%s;%d' % (s['fixed'], ceb, s['space'], s['pt0'][0], s['pt0'][1], s['pt1'][0], s['pt1'][1], ds, ins, us, s['ufree'])
 
 
 def canon(text):
@@ -171,7 +176,30 @@ def derive(pre, post):
             if x not in new:
                 rms.append((10 ** 8, 'f:%d:%d' % (i, l)))
     due = post['ufree'] - pre['ufree']
-    dce = post['ce'] - pre['ce']
+    # continuation areas: the allocator is the machine's; the harness only says which area was asked for / given back
+    ce_add, ce_rm = [], []
+    a, b = pre['ceb'], post['ceb']
+    if len(b) == len(a) or (len(b) == len(a) + 1):
+        for i, blk in enumerate(b):
+            old = a[i] if i < len(a) else []
+            ce_add += [e for e in blk if e not in old]
+            ce_rm += [(i, e) for e in old if e not in blk]
+    elif len(b) + 1 == len(a):
+        # one block was given back: find it (the blocks in front of it are unchanged or lost nothing)
+        gone = next((i for i in range(len(a)) if i >= len(b) or (a[i] != b[i] and (i + 1 >= len(a) or a[i + 1] == b[i]))), None)
+        if gone is None:
+            raise Restart('continuation blocks')
+        rest = a[:gone] + a[gone + 1:]
+        ce_rm += [(gone, e) for e in a[gone]]
+        for i, blk in enumerate(b):
+            ce_add += [e for e in blk if e not in rest[i]]
+            ce_rm += [(i if i < gone else i + 1, e) for e in rest[i] if e not in blk]
+    else:
+        raise Restart('continuation blocks')
+    if len(ce_add) + len(ce_rm) > 1:
+        # several continuation areas in one call: their order decides where first-fit puts them; start a new segment
+        raise Restart('several continuation areas in one edit')
+    dce = len(ce_add) - len(ce_rm)
     dfx = post['fixed'] - pre['fixed']
     if dfx < 0:
         raise Unsupported('descriptor removed')
@@ -198,11 +226,11 @@ def derive(pre, post):
     if is_add and is_rm:
         raise Unsupported('mixed edit')
     if is_add:
-        parts = [p for _, p in adds] + ['c'] * dce + ['v'] * dfx + ['e'] * due
+        parts = [p for _, p in adds] + ['k:%d' % e[1] for e in ce_add] + ['v'] * dfx + ['e'] * due
         return 'a/%s/%s' % ('+'.join(parts) or '-', ino_add or '-')
     if is_rm:
         # removals of records in `linked_records` order, directories last
-        parts = [p for _, p in sorted(rms, key=lambda t: t[0])] + ['c'] * (-dce) + ['e'] * (-due)
+        parts = [p for _, p in sorted(rms, key=lambda t: t[0])] + ['z:%d:%d:%d' % (i, e[0], e[1]) for i, e in ce_rm] + ['e'] * (-due)
         return 'r/%s/%s' % ('+'.join(parts) or '-', ino_rm or '-')
     return None
 
@@ -219,7 +247,7 @@ def check_history(ctx, cfg, ops, replay_obj, focus='C04'):
             except Unsupported as e:
                 ctx.dist['isotie:skip:%s' % e] += 1
                 return
-            seg = [cur, []]
+            seg = [cur, [], 'new']
             segments.append(seg)
             for op in ops:
                 res = s.apply(op)
@@ -232,7 +260,7 @@ def check_history(ctx, cfg, ops, replay_obj, focus='C04'):
                     except Unsupported as e:
                         ctx.dist['isotie:skip:%s' % e] += 1
                         break
-                    seg = [cur, []]
+                    seg = [cur, [], 'reopened']
                     segments.append(seg)
                     continue
                 if op['op'] in ('force', 'query', 'walk', 'hide', 'unhide'):
@@ -243,6 +271,12 @@ def check_history(ctx, cfg, ops, replay_obj, focus='C04'):
                 except Unsupported as e:
                     ctx.dist['isotie:skip:%s' % e] += 1
                     break
+                except Restart as e:
+                    ctx.dist['isotie:restart:%s' % e] += 1
+                    cur = nxt
+                    seg = [cur, [], 'after-edit']
+                    segments.append(seg)
+                    continue
                 if tok is not None:
                     seg[1].append((op, tok, nxt))
                 elif enc_state(nxt) != enc_state(cur):
@@ -252,17 +286,17 @@ def check_history(ctx, cfg, ops, replay_obj, focus='C04'):
         finally:
             s.close()
     reqs = ['isorun %s %s' % (enc_state(init), ' '.join(t for _, t, _ in steps)) if steps else 'isorun %s' % enc_state(init)
-            for init, steps in segments]
+            for init, steps, _kind in segments]
     answers = ctx.driver.ask(reqs)
-    for gen, ((init, steps), ans) in enumerate(zip(segments, answers)):
+    for gen, ((init, steps, kind), ans) in enumerate(zip(segments, answers)):
         f = ans.split(' ')
         ctx.dist['isotie:generation'] += 1
         if f[0] == 'bad-op':
             ctx.disagree('S-hist/isorun', 'the machine could not read the request (generation %d)' % gen, replay_obj)
             continue
         if f[0] != 'inv':
-            what = 'a new object' if gen == 0 else 'the object reconstructed by open() in generation %d' % gen
-            ctx.violation('%s.iso-inv/%s' % (focus, 'new' if gen == 0 else 'reopened'),
+            what = {'new': 'a new object', 'reopened': 'the object reconstructed by open()', 'after-edit': 'the object after an accepted edit'}[kind]
+            ctx.violation('%s.iso-inv/%s' % (focus, kind),
                           'bookkeeping of %s is not consistent (declared size vs layout, directory lengths, path table extents): %s'
                           % (what, enc_state(init)[:200]), replay_obj)
             continue
@@ -286,7 +320,7 @@ def check_history(ctx, cfg, ops, replay_obj, focus='C04'):
 
 
 def diff_fields(a, b):
-    names = ['fixed', 'ce', 'space', 'pt0', 'pt1', 'dirs', 'inos', 'udirs', 'ufree']
+    names = ['fixed', 'ceb', 'space', 'pt0', 'pt1', 'dirs', 'inos', 'udirs', 'ufree']
     fa, fb = canon(a).split(';'), canon(b).split(';')
     out = []
     for n, x, y in zip(names, fa, fb):
